@@ -169,7 +169,7 @@ def main(argv):
     t0 = time.time()
     import glob
 
-    for old in glob.glob(os.path.join(VERIF_DIR, "replays", f"{prop}-*.json")):
+    for old in glob.glob(os.path.join(VERIF_DIR, "replays", f"{prop}-{tier}-*.json")):
         try:
             os.remove(old)
         except OSError:
@@ -328,7 +328,7 @@ def main(argv):
     if fresh:
         os.makedirs(os.path.join(VERIF_DIR, "replays"), exist_ok=True)
         for key, v in fresh:
-            path = os.path.join(VERIF_DIR, "replays", f"{prop}-{h(key)}.json")
+            path = os.path.join(VERIF_DIR, "replays", f"{prop}-{tier}-{h(key)}.json")
             with open(path, "w") as f:
                 json.dump(
                     {
